@@ -467,6 +467,59 @@ def match_shape(run):
     run.check(keyed >= 2, R, R + "|max-exact-key", mi.loc(), "both the maximum and the filter are keyed on exact_part_count", "the selection closures no longer read exact_part_count")
 
 
+def loop_must_call(f, call_block):
+    """for the innermost loop around call_block: can an iteration (from the `Some` edge of its iterator) get back to the loop
+    header, or leave the loop normally, without passing call_block?  returns None when fine, else a description"""
+    from mir import natural_loop
+    best = None
+    for h in sorted(f.reachable()):
+        l_ = natural_loop(f, h)
+        if call_block in l_ and (best is None or len(l_) < len(best[1])):
+            best = (h, l_)
+    if best is None:
+        return "the call is not inside a loop"
+    h, loop = best
+    seen = set()
+    work = [h]
+    # walk from the header; stop at the call
+    while work:
+        x = work.pop()
+        if x in seen or x == call_block:
+            continue
+        seen.add(x)
+        for s_ in f.succs(x):
+            if f.blocks[s_]["cleanup"] or f.blocks[s_]["term"]["k"] == "unreachable":
+                continue
+            if s_ == h and x != h:
+                # back at the header without the call; fine only if nothing was taken from the iterator on this walk,
+                # i.e. the walk went header -> ... -> header purely through the iterator protocol (never happens)
+                return "an iteration can skip the call (back edge from the block at line %s)" % f.blocks[x]["term"].get("span", {}).get("line")
+            if s_ in loop:
+                work.append(s_)
+    return None
+
+
+def candidates_all_matched(run, R="TAB-idx"):
+    """both candidate loops (index path and full scan) hand every candidate to begin_match_with_rule and keep every result:
+    the index path may filter by the prefix index only"""
+    prog = run.prog
+    for name in ("matcher::match_with_ruledef_map", "matcher::match_with_ruledef"):
+        f = run.anchor(R, name)
+        if f is None:
+            continue
+        cb = [bi for bi, t in f.calls() if (t.get("resolved") or "").endswith("matcher::begin_match_with_rule")]
+        ex = [bi for bi, t in f.calls() if re.search(r"(Extend::extend|Vec::<.*>::(push|append|extend_from_slice))$", t.get("callee") or "")]
+        ok = len(cb) == 1 and len(ex) >= 1
+        why = "%d call(s) of begin_match_with_rule, %d collection(s) of its result" % (len(cb), len(ex))
+        if ok:
+            w1 = loop_must_call(f, cb[0])
+            w2 = loop_must_call(f, ex[0])
+            ok = w1 is None and w2 is None
+            why = w1 or w2
+        run.check(ok, R, "%s|all-candidates|%s" % (R, name.rsplit("::", 1)[-1]), f.loc(), "%s tries every candidate rule and keeps every match" % name.rsplit("::", 1)[-1],
+                  "%s: %s: a candidate rule could be skipped on one of the two matcher paths only, so --debug-no-optimize-matcher would change the result" % (name, why))
+
+
 def match_identity(run, R="MATCH"):
     """two matches are `the same` only when they come from the same rule block, the same rule and the same arguments: the
     fields compared by InstructionMatch::is_same"""
